@@ -8,7 +8,7 @@
 (* rejected event is recorded in `bad` with the violated clauses and the   *)
 (* register is resynchronised so that the rest of the trace is checked.    *)
 (***************************************************************************)
-EXTENDS Bmoc, HpxRing, TLC, Json, IOUtils
+EXTENDS Bmoc, HpxRing, HpxZoc, TLC, Json, IOUtils
 Rec == ndJsonDeserialize(IOEnv.TRACE)
 NReg == 8
 VARIABLES l, bad, regs
@@ -110,10 +110,31 @@ ConeC(e) == IF e.p = 1 THEN << <<"panic", FALSE>> >> ELSE
      <<"full_truthful", e.full_excess <= TolFull + e.rtol>>,
      <<"tight", e.slack <= 0>> >>
 
+(* a position's cell is covered: some cell whose closure contains the position (StarFace of its face) is covered *)
+Pow2(d) == 2^d
+FaceCovered(cells, d, f) == \E cl \in StarFace(Pow2(d), f) : Covered(cells, cl[1], PathOfIJ(cl[2], cl[3], d))
+(* ---- elliptical cone coverage (C13) ---- *)
+EllipseC(e) == IF e.p = 1 THEN << <<"panic", FALSE>> >> ELSE
+  << <<"dmax", e.dmax = e.d>>, <<"wellformed", WellFormed(Value(e))>>,
+     <<"centre_covered", FaceCovered(e.cells, e.d, e.f)>>,
+     <<"circular_no_miss", \A k \in 1..Len(e.wit) : Covered(e.cells, e.wit[k].b, e.wit[k].p)>>,
+     <<"tight", e.slack <= 0>> >>
+EllipseBadC(e) == << <<"nopanic", e.pp = 1 /\ e.pc = 1>> >>
+(* ---- polygon coverage (C12) ---- *)
+PolygonC(e) == IF e.p = 1 THEN << <<"panic", FALSE>> >> ELSE
+  << <<"dmax", e.dmax = e.d>>, <<"wellformed", WellFormed(Value(e))>>,
+     <<"vertex_cells_covered", \A k \in 1..Len(e.vf) : FaceCovered(e.cells, e.d, e.vf[k])>>,
+     <<"full_honest", e.full_bad = 0>>,
+     <<"tight", e.slack <= 0>>,
+     <<"contains_predicate", e.contains_bad = 0>> >>
+
 Clauses(e) == CASE e.ev = "new" -> NewC(e)
                 [] e.ev = "op" -> OpC(e)
                 [] e.ev = "law" -> LawC(e)
                 [] e.ev = "cone" -> ConeC(e)
+                [] e.ev = "ellipse" -> EllipseC(e)
+                [] e.ev = "ellipse_bad" -> EllipseBadC(e)
+                [] e.ev = "polygon" -> PolygonC(e)
                 [] e.ev = "reset" -> <<>>
                 [] e.ev = "pack" -> PackC(e)
                 [] e.ev = "lower" -> LowerC(e)
@@ -133,7 +154,7 @@ Step == /\ l <= Len(Rec)
         /\ LET e == Rec[l]
                why == Failed(Clauses(e))
            IN /\ bad' = IF why = {} THEN bad ELSE Append(bad, [i |-> l, why |-> why])
-              /\ regs' = IF e.ev \in {"view", "law", "cone"} THEN regs
+              /\ regs' = IF e.ev \in {"view", "law", "cone", "ellipse", "ellipse_bad", "polygon"} THEN regs
                          ELSE IF e.ev = "reset" THEN [r \in 0..(NReg - 1) |-> EmptyBmoc]
                          ELSE [regs EXCEPT ![e.out] = NextValue(e)]
         /\ l' = l + 1
